@@ -182,7 +182,7 @@ def gen_unit(rng):
     if rng.random() < 0.3:
         classes = [rng.choice(jm.STRING_CLASSES[:-1])]
     data, exp, spans, info = streams.gen_stream(rng, nvalues=rng.choice((0, 1, 2, 3, 5, 8, 20)), tags=tags, classes=classes)
-    pipeline = "merge" if r < 0.35 else ("select" if r < 0.5 else "identity")
+    pipeline = "merge" if r < 0.35 else ("select" if r < 0.45 else ("select-dup" if r < 0.5 else "identity"))
     return {"pipeline": pipeline, "sep": sep, "input": data, "expected": exp}
 
 
@@ -192,7 +192,7 @@ def expected_rows(unit):
         return unit["expected"]
     if p == "merge":
         return [unit["expected"]]
-    if p == "select":
+    if p in ("select", "select-dup"):
         return [{"v": e} for e in unit["expected"]]
     rows = []
     for v in unit["results"]:
@@ -212,6 +212,9 @@ def args_for(unit, style, utf8):
         a.append("--merge")
     elif p == "select":
         a += ["--select", ".=v"]
+    elif p == "select-dup":
+        # the same value selected twice under one name: the row is still an object with one member "v"
+        a += ["--select", ".=v", "--select", ".=v"]
     elif p == "arith":
         a += ["--select", "(%s .a .b)=x" % unit["op"]]
     return a
